@@ -2,8 +2,60 @@
 use rbx_types::UniqueId;
 use std::collections::HashSet;
 
+/// refgen: the assumption the dom-ops models rest on (Ref::new() never returns a value seen before) observed on the
+/// implementation where the differential run cannot: builders created on several threads (and on threads that start
+/// later), then brought together in ONE DOM.  Prints `<pid> refgen: ...` lines for C09 (every live referent maps to one
+/// instance, descendants() visits each once) and C10 (insert returns the builder's referent; all instances arrive).
+fn refgen(threads: usize, per: usize) {
+    use rbx_dom_weak::{InstanceBuilder, WeakDom};
+    use rbx_types::Ref;
+    let build = move |t: usize| -> Vec<InstanceBuilder> {
+        (0..per).map(|k| InstanceBuilder::new("Folder").with_name(format!("t{t}i{k}")).with_child(InstanceBuilder::new("Folder").with_name(format!("t{t}i{k}c")))).collect()
+    };
+    let mut batches: Vec<Vec<InstanceBuilder>> = Vec::new();
+    // two generations of threads, so that per-thread state of finished threads is in play as well
+    for gen in 0..2 {
+        let joins: Vec<_> = (0..threads).map(|t| std::thread::spawn(move || build(gen * 1000 + t))).collect();
+        for j in joins {
+            batches.push(j.join().unwrap());
+        }
+    }
+    batches.push(build(9999));
+    let mut dom = WeakDom::new(InstanceBuilder::new("DataModel"));
+    let root = dom.root_ref();
+    let mut tops: HashSet<Ref> = HashSet::new();
+    let (mut total, mut returned_other) = (0usize, 0usize);
+    for b in batches.into_iter().flatten() {
+        let want = b.referent();
+        total += 2;
+        let got = dom.insert(root, b);
+        if got != want {
+            returned_other += 1;
+        }
+        tops.insert(got);
+    }
+    let desc: Vec<Ref> = dom.descendants().map(|i| i.referent()).collect();
+    let distinct: HashSet<Ref> = desc.iter().copied().collect();
+    let kids = dom.root().children().len();
+    println!("refgen threads={threads} per={per} built={total} descendants={} distinct={} root_children={kids} distinct_top_refs={}", desc.len(), distinct.len(), tops.len());
+    if distinct.len() != total + 1 || desc.len() != total + 1 {
+        println!("C09 refgen: {} instances built on {threads}x2 threads and inserted into one DOM; descendants() yields {} entries with {} distinct referents (two builders received the same referent: one overwrote the other)", total, desc.len(), distinct.len());
+        println!("C10 refgen: {} instances were inserted but only {} distinct ones are reachable", total, distinct.len().saturating_sub(1));
+    }
+    if tops.len() != total / 2 || kids != total / 2 {
+        println!("C09 refgen: the root lists {kids} children with {} distinct referents for {} inserted builders", tops.len(), total / 2);
+    }
+    if returned_other > 0 {
+        println!("C10 refgen: insert returned a referent other than the builder's own in {returned_other} cases");
+    }
+}
+
 pub fn cli(args: &[String]) -> bool {
     use crate::util::arg_num;
+    if args.get(1).map(|s| s.as_str()) == Some("refgen-run") {
+        refgen(arg_num(args, "--threads", 8) as usize, arg_num(args, "--per", 300) as usize);
+        return true;
+    }
     if args.get(1).map(|s| s.as_str()) != Some("uidgen-run") {
         return false;
     }
